@@ -268,7 +268,7 @@ impl Hist for C18 {
 }
 
 fn configs(tier: Tier) -> Vec<(C18, usize)> {
-    let d = if tier == Tier::Quick { 2 } else { 3 };
+    let d = if tier == Tier::Quick { 2 } else { 4 };
     vec![(C18 { multi: false }, d + 1), (C18 { multi: true }, d)]
 }
 
@@ -279,7 +279,7 @@ pub fn run(tier: Tier, shard: Shard, stats: &mut Stats) {
 }
 
 pub fn meta(tier: Tier) -> Meta {
-    let d = if tier == Tier::Quick { 2 } else { 3 };
+    let d = if tier == Tier::Quick { 2 } else { 4 };
     Meta {
         level: "fault_enumeration",
         rule: format!("every history of <= {} operations on a single bar (14 operations) and <= {d} on a two-bar MultiProgress (20 operations incl. println/clear/suspend/remove/add/set_draw_target) is first run fault-free to count its N fallible terminal calls; then it is re-run for every k < N with the k-th call failing once, and with the k-th and all later calls failing; oracle: no call unwinds, io::Result-returning calls report exactly the injected failures, getters equal the fault-free run after every operation, and a fixed epilogue (tick, inc, getters, sibling tick, mp.println, mp.clear, drop all) completes; distinct = (history, N); non-trivial = N > 0", d + 1),
